@@ -241,6 +241,15 @@ pub fn run(ctx: &Ctx, rep: &mut Report) {
         rep.count("related_constant_trees");
         check_tree(&e, &format!("related:{}", i), &mut r, rep, 4);
     });
+    // stream pairs: two comparisons of the same field side by side, constants from the field's boundary set
+    // or a few units apart, same or different units (the shape range / window peepholes rewrite)
+    let n_pairs = ctx.pick(1500, 400_000);
+    par_cases(ctx, "pairs", n_pairs, rep, |i, rep| {
+        let mut r = Rng::for_case(ctx.seed, "pairs", i);
+        let e = pair_case(&mut r, false);
+        rep.count("same_field_pairs");
+        check_tree(&e, &format!("pairs:{}", i), &mut r, rep, 3);
+    });
     // stream heavy: many matchers / printers so that identifiers and frame tags go past one digit
     let n_heavy = ctx.pick(600, 40_000);
     par_cases(ctx, "heavy", n_heavy, rep, |i, rep| {
